@@ -505,6 +505,12 @@ theorem C14_history (s : Repo) (ops : List Op) (hi : Inv s) (hadm : Admissible s
 theorem C14_history_init : Inv {} := by
   refine ⟨?_, ?_, ?_, ?_⟩ <;> simp [Repo.loaded]
 
+/-- C14_history for a process that starts with nothing loaded (`g_irepository_get_default ()`). -/
+theorem C14_history_from_empty (ops : List Op) (hadm : Admissible {} ops) :
+    (trace {} ops).length = ops.length ∧ ∀ x ∈ trace {} ops, AnswerOK x.1 x.2.1 x.2.2 :=
+  ⟨(C14_history {} ops C14_history_init hadm).1,
+   fun x hx => ((C14_history {} ops C14_history_init hadm).2 x hx).2⟩
+
 /-- The cache-free searches themselves agree with the typelib-level lookups of the typelibs they
     are run on (this is what "agree" means for the right-hand side of C14_history). -/
 theorem C14_spec_agrees (libs : List TL) (k : Str) :
